@@ -36,7 +36,11 @@ def main():
     a = ap.parse_args()
     sd = "/tmp/seed/%s" % a.id
     out = "%s/out/%s" % (sd, a.x)
-    wt = sd + "/wt"
+    # private copy of the (clean) seed worktree, so A and B can be evaluated side by side
+    os.makedirs("/tmp/evalv", exist_ok=True)
+    wt = "/tmp/evalv/%s-%s-repo" % (a.id, a.x)
+    shutil.rmtree(wt, ignore_errors=True)
+    sh("git -C /repo worktree prune; git -C /repo worktree add --detach %s HEAD" % wt)
     patch = out + "/patch.diff"
     meta = json.load(open(out + "/meta.json"))
     report = {"property": a.id, "variant": a.x, "summary": meta.get("summary"), "needs": meta.get("needs")}
@@ -98,34 +102,37 @@ def main():
         if not (rc_with != 0 and rc_without == 0):
             print("DEMO NOT CONFIRMED: with=%s without=%s\n--with--\n%s\n--without--\n%s" % (rc_with, rc_without, o_with[-1500:], o_without[-1500:]))
 
-    # our checks against it
+    # our checks against it: an isolated copy of /verif (committed + working
+    # files, no build output) is pointed at the seed's own worktree with the
+    # patch applied (VERIF_REPO), so /repo itself is never touched and several
+    # evaluations can run side by side.
     checks = [a.id] + [c for c in a.checks.split(",") if c]
-    st, _ = sh("git -C /repo status --porcelain")
-    rc, o = sh(["git", "-C", "/repo", "apply", patch])
+    iso = "/tmp/evalv/%s-%s" % (a.id, a.x)
+    shutil.rmtree(iso, ignore_errors=True)
+    os.makedirs(iso)
+    sh("rsync -a --exclude .git --exclude .build --exclude .work --exclude logs --exclude replays --exclude evidence /verif/ %s/" % iso)
+    sh("git checkout -- . && git clean -fdq", cwd=wt)
+    rc, o = sh(["git", "apply", patch], cwd=wt)
     if rc != 0:
-        print("cannot apply to /repo:", o)
+        print("cannot apply:", o)
         sys.exit(3)
     results = {}
     try:
         for c in checks:
             for i in range(a.seeds):
-                env = dict(ENV, VERIF_SEED=str(1000 + 17 * i)) if i else dict(ENV)
+                env = dict(ENV, VERIF_REPO=wt)
+                if i:
+                    env["VERIF_SEED"] = str(1000 + 17 * i)
                 t0 = time.time()
-                rc, o = sh(["./check", c, "--tier", "quick"], cwd="/verif", env=env, timeout=3600)
+                rc, o = sh(["./check", c, "--tier", "quick"], cwd=iso, env=env, timeout=5400)
                 det = [l for l in o.splitlines() if l.startswith("VIOLATION-DETAIL")]
                 results.setdefault(c, []).append({"seed": env.get("VERIF_SEED", "default"), "exit": rc, "wall_s": round(time.time() - t0, 1),
-                                                  "detail": det[0][:300] if det else ""})
+                                                  "detail": det[0][:300] if det else (o.strip().splitlines()[-1][:200] if rc == 2 and o.strip() else "")})
                 if rc == 1:
                     break
     finally:
-        sh(["git", "-C", "/repo", "apply", "-R", patch])
-        rc, o = sh("git -C /repo status --porcelain")
-        if o.strip():
-            print("WARNING /repo not clean after undo:", o)
-        # drop replay files produced against the mutated tree
-        for c in checks:
-            for f in glob.glob("/verif/replays/%s/*" % c):
-                os.remove(f)
+        shutil.rmtree(iso, ignore_errors=True)
+        sh("git -C /repo worktree remove --force %s" % wt)
     report["checks"] = results
     report["caught_by"] = [c for c, rs in results.items() if any(r["exit"] == 1 for r in rs)]
     print(json.dumps(report, indent=1))
